@@ -85,6 +85,11 @@ func checkC03(c *Ctx) {
 	for _, di := range av.storesToField(wc + "Certificate") {
 		if isRootSig(di.i.(*ssa.Store).Val, di.fr) {
 			okBody = true
+		} else if sigP != nil {
+			// a private copy of the whole signature is the same bytes
+			if exact, decided := av.exactBytes(di.i.(*ssa.Store).Val, di.fr, dval{sigP, av.root}, 0); exact && decided {
+				okBody = true
+			}
 		}
 	}
 	if !okBody {
@@ -126,30 +131,27 @@ func checkC03(c *Ctx) {
 	isLenLoad := func(v ssa.Value) bool {
 		return ir.FieldID(ir.StripConv(v)) == wc+"Length"
 	}
-	sameFn := hdrWrite != nil && pad != nil && hdrDi.fr == padDi.fr
+	// the pad is judged by value, whatever computes it: evaluated for each residue of
+	// dwLength modulo 8 (deepmod.go) it must be the distance to the next multiple of 8
+	pad8 := [8]int64{0, 7, 6, 5, 4, 3, 2, 1}
+	_ = pad
+	_ = padDi
 	switch {
 	case hdrWrite == nil:
 		bad = append(bad, "the entry is not written to the certificate table")
-	case pad == nil:
-		bad = append(bad, "the entry padding is not computed by PaddingBytes")
+	case padWrite == nil:
+		c.R.Infof("M2.conserve", fname, "pad-bytes", c.Pos(fn.Pos()), "not decided for this shape: the pad bytes are not appended to the certificate table with one bytes.Buffer.Write")
 	default:
-		if !isLenLoad(av.resolveConv(pad.Call.Args[0], padDi.fr).v) {
-			bad = append(bad, "PaddingBytes is not applied to the entry's dwLength")
+		pv := av.resolve(padWrite.Call.Args[1], padWDi.fr)
+		vals, okV := c.lenFunction(pv.v, isLenLoad)
+		switch {
+		case !okV:
+			c.R.Infof("M2.conserve", fname, "pad-bytes", c.IPos(padWrite), "not decided for this shape: the number of pad bytes appended after the entry is not evaluated")
+		case vals != pad8:
+			bad = append(bad, fmt.Sprintf("the bytes appended after the entry number %v for dwLength = 0..7 (mod 8), want %v (zero padding up to the next multiple of 8)", vals, pad8))
 		}
-		if k, isK := ir.ConstInt(av.resolveConv(pad.Call.Args[1], padDi.fr).v); !isK || k != 8 {
-			bad = append(bad, "entries are not aligned to 8 bytes")
-		}
-		if padWrite == nil {
-			c.R.Infof("M2.conserve", fname, "pad-bytes", c.Pos(fn.Pos()), "not decided for this shape: the pad bytes are not appended to the certificate table with one bytes.Buffer.Write")
-		} else {
-			pv := av.resolve(padWrite.Call.Args[1], padWDi.fr)
-			ex, ok := pv.v.(*ssa.Extract)
-			if !ok || ex.Tuple != ssa.Value(pad) || ex.Index != 0 {
-				bad = append(bad, "the bytes appended after the entry are not the pad bytes of that PaddingBytes call")
-			}
-			if hdrDi.seq > padWDi.seq || sameFn && hdrDi.fr == padWDi.fr && !precedesInCFG(hdrDi.fr.fn, hdrWrite, padWrite) {
-				bad = append(bad, "the pad is written before the entry")
-			}
+		if hdrDi.seq > padWDi.seq || hdrDi.fr == padWDi.fr && !precedesInCFG(hdrDi.fr.fn, hdrWrite, padWrite) {
+			bad = append(bad, "the pad is written before the entry")
 		}
 	}
 	// directory Size at the successful exits, along every path: old Size (kept only
@@ -164,6 +166,7 @@ func checkC03(c *Ctx) {
 	} else if !complete {
 		c.R.Infof("M2.conserve", fname, "table+directory-paths", c.Pos(fn.Pos()), "not decided for this shape: the function has loops or too many paths for the path evaluation of the directory Size")
 	}
+	undecidedPath := false
 	for _, path := range paths {
 		cur := symAffine("OLD", nil)
 		newTable := false
@@ -195,6 +198,7 @@ func checkC03(c *Ctx) {
 		}
 		var olds, lens, pads int64
 		other := ""
+		otherUndecided := false
 		for sym, cf := range cur.T {
 			v := cur.Sym[sym]
 			switch {
@@ -202,10 +206,16 @@ func checkC03(c *Ctx) {
 				olds = cf
 			case v != nil && isLenLoad(v):
 				lens += cf
-			case isExtractOf(v, pad, 1):
-				pads += cf
 			default:
-				other = sym
+				// a term that evaluates to the pad length for every dwLength
+				if pvals, okP := c.padFunction(v, isLenLoad); okP && pvals == pad8 {
+					pads += cf
+				} else if okP {
+					other = fmt.Sprintf("%s = %v for dwLength = 0..7 (mod 8), not the distance %v to the next multiple of 8", sym, pvals, pad8)
+				} else {
+					other = sym
+					otherUndecided = true
+				}
 			}
 		}
 		wantOld := int64(1)
@@ -215,8 +225,11 @@ func checkC03(c *Ctx) {
 		switch {
 		case !touched:
 			bad = append(bad, "the directory Size is not updated on a successful path")
+		case otherUndecided && cur.K == 0:
+			c.R.Infof("M2.conserve", fname, "table+directory-paths", c.Pos(fn.Pos()), "not decided for this shape: the directory Size has a term that the alignment evaluator does not resolve ("+other+")")
+			undecidedPath = true
 		case other != "" || cur.K != 0:
-			bad = append(bad, "on a successful path the directory Size becomes "+cur.String()+" (an unexpected term)")
+			bad = append(bad, "on a successful path the directory Size becomes "+cur.String()+" (an unexpected term: "+other+")")
 		case lens != 1 || pads != 1 || olds != wantOld:
 			kind := "an existing table"
 			if newTable {
@@ -224,11 +237,11 @@ func checkC03(c *Ctx) {
 			}
 			bad = append(bad, fmt.Sprintf("for %s the directory Size becomes %s, want %d*old Size + dwLength + pad length (result #1 of the same PaddingBytes call)", kind, cur.String(), wantOld))
 		}
-		if len(bad) > 0 {
+		if len(bad) > 0 || undecidedPath {
 			break
 		}
 	}
-	c.R.Check(len(bad) == 0, "M2.conserve", fname, "table+directory", c.Pos(fn.Pos()), "certificate table and directory entry grow by the same dwLength + pad, pad from one PaddingBytes(dwLength, 8) call, entry before pad", strings.Join(bad, "; "))
+	c.R.Check(len(bad) == 0, "M2.conserve", fname, "table+directory", c.Pos(fn.Pos()), "certificate table and directory entry grow by the same dwLength + pad (the distance to the next multiple of 8), entry before pad", strings.Join(bad, "; "))
 
 	// ---- M3: a new table starts at the padded end of file; an existing table keeps its address
 	bad = nil
